@@ -95,12 +95,24 @@ def json_schema_property_to_param(param, required):
             "{} {}".format(fk_prefix, _param["doc"]) if _param.get("doc") else fk_prefix
         )
 
+    # JSON-schema keywords aren't keys of a param
+    nullable: bool = _param.pop("nullable", False)
+    if _param.pop("format", None) == "date-time" and _param.get("typ") == "str":
+        _param["typ"] = "datetime"
+    items = _param.pop("items", None)
+    if (
+        _param.get("typ") == "list"
+        and isinstance(items, dict)
+        and items.get("type") in json_type2typ
+    ):
+        _param["typ"] = "List[{}]".format(json_type2typ[items["type"]])
+
     if (
         name not in required
         and _param.get("typ")
         and "Optional[" not in _param["typ"]
         # Could also parse out a `Union` for `None`
-        or _param.pop("nullable", False)
+        or nullable
     ):
         _param["typ"] = "Optional[{}]".format(_param["typ"])
     if _param.get("default", False) in none_types:
